@@ -3,6 +3,7 @@ import SuppModel.Flow.Memo
 import SuppModel.Flow.Checked
 import SuppModel.Flow.Scoping
 import SuppModel.Flow.Iso
+import SuppModel.Flow.Rank
 
 namespace SuppModel.Drv.Flow
 open Lean SuppModel.Flow SuppModel.Drv
@@ -111,6 +112,11 @@ def handle (j : Json) : Json :=
       Json.mkObj [("wf", Json.bool g.wf), ("rows", Json.arr rows.toArray)]
     | .error e, _ => errJson e
     | _, .error e => errJson e
+  | .ok "ranked" =>   -- C08: hypothesis of C08_eval_terminates (acyclic once loop edges are ignored) and its fuel bound
+    match (j.getObjVal? "graph").bind graphOf with
+    | .ok g => Json.mkObj [("ranked", Json.bool g.ranked), ("rankFuel", Json.num (g.rankFuel : Nat)), ("fuel", Json.num (g.fuel : Nat)),
+                           ("wf", Json.bool g.wf)]
+    | .error e => errJson e
   | .ok "iso" =>   -- C13: two layouts of one program: same shape, and per query the compared positions are ordered alike
     match (j.getObjVal? "g1").bind graphOf, (j.getObjVal? "g2").bind graphOf,
           (jarr j "q1").bind (·.toList.mapM queryOf), (jarr j "q2").bind (·.toList.mapM queryOf) with
